@@ -340,6 +340,50 @@ Theorem C20_unreplayable_pinned_refuted : forall H first rsp user pass cnonce au
 Proof. exact unreplayable_pinned_refuted. Qed.
 Print Assumptions C20_unreplayable_pinned_refuted.
 
+(* ----- faults and sequences: state that is NOT carried ----- *)
+
+(* a connection fault at the re-send (origin drops the kept-alive connection after reading the
+   authenticated request): whether the transport replays it or hands the error to the caller,
+   everything on the wire after the first request is the one answer the middleware computed,
+   at most twice, with the Content-Type and body of the original *)
+Theorem C20_replay_intact : forall H fault rp first rsp user pass cnonce,
+  length (digest_exchange_f H fault rp first rsp user pass cnonce) <= 3 /\
+  hd_error (digest_exchange_f H fault rp first rsp user pass cnonce) = Some first /\
+  forall q, In q (tl (digest_exchange_f H fault rp first rsp user pass cnonce)) ->
+    digest_middleware H rp first rsp user pass cnonce = Resent q /\
+    In q (tl (digest_exchange H rp first rsp user pass cnonce)) /\
+    w_method q = w_method first /\ w_uri q = w_uri first /\
+    w_ctype q = w_ctype first /\ w_body q = w_body first.
+Proof. exact replay_intact. Qed.
+Print Assumptions C20_replay_intact.
+
+Theorem C20_exchange_no_fault : forall H rp first rsp user pass cnonce,
+  digest_exchange_f H None rp first rsp user pass cnonce = digest_exchange H rp first rsp user pass cnonce.
+Proof. exact exchange_no_fault. Qed.
+Print Assumptions C20_exchange_no_fault.
+
+(* one middleware serving a sequence of calls keeps nothing from one to the next *)
+Theorem C20_session_independent : forall H user pass before after rp first rsp cnonce,
+  nth_error (digest_session H user pass (before ++ (rp, first, rsp, cnonce) :: after)) (length before) =
+  Some (digest_exchange H rp first rsp user pass cnonce).
+Proof. exact session_independent. Qed.
+Print Assumptions C20_session_independent.
+
+(* ... so every call with a supported challenge is answered acceptably for ITS challenge, whatever
+   was answered before (same realm under another hash family, other realms, -sess variants) *)
+Theorem C20_session_every_answer_accepted : forall H,
+  (forall f d, clean (H f d) = true) ->
+  forall user pass before after first rsp cnonce c,
+  r_err rsp = false -> r_status rsp = 401%N -> r_chal rsp <> [] ->
+  parse_challenge (r_chal rsp) = inl c -> supported c = true -> clean cnonce = true ->
+  exists q hdr,
+    nth_error (digest_session H user pass (before ++ (true, first, rsp, cnonce) :: after)) (length before)
+      = Some [first; q] /\
+    w_auth q = Some hdr /\ w_body q = w_body first /\
+    rfc7616_accepts H c (w_uri first) (w_method first) user pass cnonce hdr = true.
+Proof. exact session_every_answer_accepted. Qed.
+Print Assumptions C20_session_every_answer_accepted.
+
 (* the pinned (pre-fix) splitter rejected supported challenges; witnesses kept checked *)
 Theorem C20_pinned_split_refuted :
   parse_challenge_pinned (bs "Digest realm=""r"", nonce=""n"", qop=""auth,auth-int""") = inr EBadChallenge /\
